@@ -123,6 +123,42 @@ func (c *Ctx) codecPairs(pkgRel string) []*codecPair {
 							}
 							cp.Dec = append(cp.Dec, fs)
 						}
+					case *ast.BlockStmt:
+						// the same arm written as a rejecting guard: `if cnt != K || err != io.EOF { return err }`
+						// followed by the resets on the fall-through path
+						for i, st := range x.List {
+							ifs, ok := st.(*ast.IfStmt)
+							if !ok || ifs.Else != nil || len(ifs.Body.List) == 0 {
+								continue
+							}
+							if _, isRet := ifs.Body.List[len(ifs.Body.List)-1].(*ast.ReturnStmt); !isRet {
+								continue
+							}
+							var lit int64 = -1
+							if be, ok := ifs.Cond.(*ast.BinaryExpr); ok && be.Op == token.LOR {
+								for _, part := range []ast.Expr{be.X, be.Y} {
+									if pb, ok := part.(*ast.BinaryExpr); ok && pb.Op == token.NEQ {
+										for _, side := range []ast.Expr{pb.X, pb.Y} {
+											if bl, ok := side.(*ast.BasicLit); ok && bl.Kind == token.INT {
+												v, _ := strconv.ParseInt(bl.Value, 0, 64)
+												lit = v
+											}
+										}
+									}
+								}
+							}
+							if lit < 0 {
+								continue
+							}
+							cp.CntLits = append(cp.CntLits, lit)
+							for _, rest := range x.List[i+1:] {
+								if as, ok := rest.(*ast.AssignStmt); ok {
+									for _, l := range as.Lhs {
+										cp.ResetsTo[lit] = append(cp.ResetsTo[lit], relExpr(l, recv))
+									}
+								}
+							}
+						}
 					case *ast.IfStmt:
 						// if cnt == K && err == io.EOF { field = nil ... }
 						var lit int64 = -1
